@@ -101,12 +101,12 @@ func Supervise(a SupArgs) int {
 		}
 	}
 	type streamInfo struct {
-		Name       string `json:"name"`
-		N          int    `json:"n"`
-		Cases      int64  `json:"cases_run"`
-		Evals      int64  `json:"evaluations"`
-		Exhaustive bool   `json:"exhaustive,omitempty"`
-		Race       bool   `json:"race_build,omitempty"`
+		Name       string  `json:"name"`
+		N          int     `json:"n"`
+		Cases      int64   `json:"cases_run"`
+		Evals      int64   `json:"evaluations"`
+		Exhaustive bool    `json:"exhaustive,omitempty"`
+		Race       bool    `json:"race_build,omitempty"`
 		WallS      float64 `json:"wall_s"`
 	}
 	var infos []streamInfo
@@ -185,19 +185,19 @@ func Supervise(a SupArgs) int {
 
 	// evidence
 	cov := map[string]any{
-		"evaluations":         s.total.Evaluations,
-		"distinct_nontrivial": distinct,
-		"rule":                p.Rule,
-		"samples":             s.total.Samples,
-		"cases":               s.total.Cases,
-		"streams":             infos,
-		"counters":            s.total.Counters,
-		"inconclusive":        inconc,
-		"inconclusive_detail": s.total.Inconclusive,
+		"evaluations":            s.total.Evaluations,
+		"distinct_nontrivial":    distinct,
+		"rule":                   p.Rule,
+		"samples":                s.total.Samples,
+		"cases":                  s.total.Cases,
+		"streams":                infos,
+		"counters":               s.total.Counters,
+		"inconclusive":           inconc,
+		"inconclusive_detail":    s.total.Inconclusive,
 		"known_findings_matched": matched,
-		"child_processes":     s.children,
-		"child_crashes":       s.crashes,
-		"exhaustive":          allExhaustive && len(infos) > 0,
+		"child_processes":        s.children,
+		"child_crashes":          s.crashes,
+		"exhaustive":             allExhaustive && len(infos) > 0,
 	}
 	if s.total.Extra != nil {
 		cov["observations"] = s.total.Extra
@@ -295,6 +295,8 @@ type childOutcome struct {
 	logTail  string
 	logPath  string
 	racePref string
+	ckpt     *Result // partial result of a single-worker child that died
+	goCrash  bool    // the log shows a Go-level crash (fatal error, panic, traceback)
 }
 
 func (s *supervisor) spawn(st *Stream, shard, from, to, workers, only int, skip []int, budgetSec int) *childOutcome {
@@ -332,6 +334,8 @@ func (s *supervisor) spawn(st *Stream, shard, from, to, workers, only int, skip 
 	slotPath := fmt.Sprintf("%s/%s.%d.slots", s.work, st.Name, shard)
 	os.Remove(resPath)
 	os.Remove(slotPath)
+	ckptPath := fmt.Sprintf("%s/%s.%d.ckpt.json", s.work, st.Name, shard)
+	os.Remove(ckptPath)
 	s.mu.Lock()
 	s.children++
 	s.mu.Unlock()
@@ -395,7 +399,18 @@ loop:
 			}
 		}
 		out.logTail = crashSummary(logPath)
+		if b, err := os.ReadFile(logPath); err == nil {
+			out.goCrash = bytes.Contains(b, []byte("fatal error:")) || bytes.Contains(b, []byte("panic:")) ||
+				bytes.Contains(b, []byte("goroutine ")) || bytes.Contains(b, []byte("runtime: "))
+		}
+		if b, err := os.ReadFile(ckptPath); err == nil {
+			var r Result
+			if json.Unmarshal(b, &r) == nil && r.Next > 0 {
+				out.ckpt = &r
+			}
+		}
 	}
+	os.Remove(ckptPath)
 	os.Remove(slotPath)
 	os.Remove(resPath)
 	return out
@@ -452,17 +467,14 @@ func crashSite(summary string) string {
 		}
 	}
 	for _, l := range strings.Split(body, "\n")[1:] {
-		if strings.HasPrefix(l, "\t") || l == "" {
+		if strings.HasPrefix(l, "\t") || l == "" || strings.HasPrefix(l, "created by") {
 			continue
 		}
-		if strings.HasPrefix(l, "runtime.") || strings.HasPrefix(l, "runtime/") || strings.HasPrefix(l, "internal/") ||
-			strings.HasPrefix(l, "verif/") || strings.HasPrefix(l, "main.") || strings.HasPrefix(l, "created by") ||
-			strings.HasPrefix(l, "sync.") || strings.HasPrefix(l, "panic(") {
-			continue
-		}
-		if i := strings.LastIndex(l, "("); i > 0 && strings.Contains(l, ".") {
-			frame = l[:i]
-			break
+		if i := strings.LastIndex(l, "("); i > 0 {
+			if site := SiteOf(l[:i]); site != "" {
+				frame = site
+				break
+			}
 		}
 	}
 	return class + "/" + frame
@@ -475,7 +487,8 @@ func (s *supervisor) runShard(st *Stream, shard, from, to, workers int) *Result 
 	if maxCase <= 0 {
 		maxCase = 60
 	}
-	for attempt := 0; attempt < 12; attempt++ {
+	extKills := 0
+	for attempt := 0; attempt < 60; attempt++ {
 		out := s.spawn(st, shard, from, to, workers, -1, skip, 0)
 		s.collectRace(st, out)
 		if out.res != nil {
@@ -486,6 +499,24 @@ func (s *supervisor) runShard(st *Stream, shard, from, to, workers int) *Result 
 		s.mu.Lock()
 		s.crashes++
 		s.mu.Unlock()
+		if out.ckpt != nil && out.ckpt.Next > from {
+			// single-worker child: keep what it finished and resume behind it
+			mergeResult(res, out.ckpt)
+			from = out.ckpt.Next
+		}
+		if !out.goCrash && !out.hung {
+			// killed from outside (e.g. the kernel's OOM killer under memory
+			// pressure from other processes): not an observation about the
+			// code under test.  Retry; give up as a harness error.
+			extKills++
+			res.Inconclusive["child-killed-by-external-signal/"+st.Name]++
+			if extKills > 4 {
+				s.addHarness(fmt.Sprintf("stream %s shard %d: child repeatedly killed by an external signal (%v)", st.Name, shard, out.exitErr))
+				return res
+			}
+			time.Sleep(2 * time.Second)
+			continue
+		}
 		if len(out.busy) == 0 {
 			s.addHarness(fmt.Sprintf("child for stream %s shard %d died outside any case: %v\n%s", st.Name, shard, out.exitErr, out.logTail))
 			return res
@@ -496,6 +527,11 @@ func (s *supervisor) runShard(st *Stream, shard, from, to, workers int) *Result 
 			s.collectRace(st, iso)
 			if iso.res != nil {
 				mergeResult(res, iso.res) // ran fine alone
+				skip = append(skip, idx)
+				continue
+			}
+			if !iso.goCrash && !iso.hung {
+				res.Inconclusive["child-killed-by-external-signal/"+st.Name]++
 				continue
 			}
 			reproduced = true
@@ -521,7 +557,6 @@ func (s *supervisor) runShard(st *Stream, shard, from, to, workers int) *Result 
 		if !reproduced {
 			if out.hung {
 				res.Inconclusive["watchdog-fired-not-reproduced/"+st.Name]++
-				skip = append(skip, out.busy...)
 				continue
 			}
 			// crash under the concurrent batch that no single case reproduces
